@@ -17,7 +17,7 @@ def fb_info(f):
     msg = f.message if isinstance(f.message, str) else ''
     return {'label': f.label, 'category': f.category, 'line': None if loc is None else getattr(loc, 'line', None),
             'msg_lines': [int(x) for x in re.findall(r'[Ll]ine (\d+)', msg or '')],
-            'fields': {k: v for k, v in (f.fields or {}).items() if isinstance(v, (int, str)) and k in ('count', 'found')}}
+            'fields': {k: v for k, v in (f.fields or {}).items() if isinstance(v, (int, str)) and k in ('count', 'found', 'name')}}
 
 
 def main():
